@@ -26,6 +26,7 @@ var errInner = errors.New("inner source failed")
 type c20inner struct {
 	a        string // text for field A ("" = unset)
 	b        string
+	asPtr    bool // return a pointer to the filled struct (dials accepts both)
 	valueErr error
 	watchErr error
 	t        *dials.Type
@@ -49,7 +50,11 @@ func (s *c20inner) Value(ctx context.Context, t *dials.Type) (reflect.Value, err
 	if s.valueErr != nil {
 		return reflect.Value{}, s.valueErr
 	}
-	return s.fill(t, s.a, s.b), nil
+	v := s.fill(t, s.a, s.b)
+	if s.asPtr {
+		return v.Addr(), nil
+	}
+	return v, nil
 }
 
 type c20watcher struct{ c20inner }
@@ -68,6 +73,7 @@ func HarnessC20TransformStatic() {
 	zzverif.Assume(u <= 0xffff)
 	fail := zzverif.Choose("fail", 2) == 1
 	inner := &c20inner{a: zzverif.Literal(v, zzverif.StyleDecimal), b: zzverif.LiteralU(u, zzverif.StyleDecimal)}
+	inner.asPtr = zzverif.Choose("ptr", 2) == 1
 	if fail {
 		inner.valueErr = errInner
 	}
